@@ -1,5 +1,5 @@
 CONSTANTS
-  NS = {"c","r"}
+  NS = {"c"}
   NK = 3
   BatchSet = "conc"
   Callers = {1,2}
